@@ -57,7 +57,15 @@ def replay_state(chk, st, table):
         case['stored_as'] = 'list of ints' if kindv == 1 else 'int64 array'
     try:
         p = make_object(n, dt, sampling)
-        p.psd = vec
+        try:
+            p.psd = vec
+        except Exception:
+            if 'stored_as' not in case:
+                raise
+            # integer-typed vectors refused loudly: not a violation, store the same values as floats
+            chk.skip('C06: integer-typed PSD vector refused', 1)
+            p = make_object(n, dt, sampling)
+            p.psd = np.asarray(vec, dtype=float)
     except Exception as e:
         raise core.MachineryError('cannot build Spectrum(n=%d, %s): %r' % (n, dt, e))
     if p.NFFT != n or p.sides != default:
